@@ -5,7 +5,14 @@ package simsync
 import (
 	"runtime"
 	"unsafe"
+
+	"github.com/elementsproject/peerswap/verifsim/hsync"
 )
+
+// imutex guards the simulated primitives' own bookkeeping. It must be invisible
+// to the detector: a visible lock here would order every user of a simulated
+// RWMutex after the previous one, readers included.
+type imutex = hsync.Mutex
 
 func raceAcquire[T any](p *T)      { runtime.RaceAcquire(unsafe.Pointer(p)) }
 func raceRelease[T any](p *T)      { runtime.RaceRelease(unsafe.Pointer(p)) }
